@@ -127,6 +127,18 @@ impl IndexSet<String> {
     { unimplemented!() }
 }
 
+/// indexmap's `==` on IndexSet: same elements, order ignored
+impl vstd::std_specs::cmp::PartialEqSpecImpl for IndexSet<String> {
+    open spec fn obeys_eq_spec() -> bool { true }
+    open spec fn eq_spec(&self, other: &IndexSet<String>) -> bool {
+        self@.len() == other@.len() && forall|x: String| self@.contains(x) <==> other@.contains(x)
+    }
+}
+impl PartialEq for IndexSet<String> {
+    #[verifier::external_body]
+    fn eq(&self, other: &IndexSet<String>) -> (r: bool) { unimplemented!() }
+}
+
 /// things IndexSet::from_iter / Vec::from_iter are called with
 pub trait VxIntoSeq<T> {
     spec fn into_seq(&self) -> Seq<T>;
